@@ -428,6 +428,12 @@ func jsonExample(v any) string {
 					kstr = strconv.FormatInt(t, 10)
 				case int:
 					kstr = strconv.Itoa(t)
+				case uint:
+					kstr = strconv.FormatUint(uint64(t), 10)
+				case uint32:
+					kstr = strconv.FormatUint(uint64(t), 10)
+				case uint64:
+					kstr = strconv.FormatUint(t, 10)
 				case float32:
 					kstr = strconv.FormatFloat(float64(t), 'f', -1, 32)
 				case float64:
